@@ -67,13 +67,15 @@ impl AsyncFileSystem for AsyncPhysicalFS {
         &self,
         path: &str,
     ) -> VfsResult<Box<dyn Unpin + Stream<Item = String> + Send>> {
-        let entries = Box::new(
-            self.get_path(path)
-                .read_dir()
-                .await?
-                .map(|entry| entry.unwrap().file_name().into_string().unwrap()),
-        );
-        Ok(entries)
+        let mut directory = self.get_path(path).read_dir().await?;
+        let mut entries = Vec::new();
+        while let Some(entry) = directory.next().await {
+            let name = entry?.file_name().into_string().map_err(|name| {
+                VfsErrorKind::Other(format!("File name {:?} is not valid UTF-8", name))
+            })?;
+            entries.push(name);
+        }
+        Ok(Box::new(futures::stream::iter(entries)))
     }
 
     async fn create_dir(&self, path: &str) -> VfsResult<()> {
